@@ -77,7 +77,11 @@ func AllocateRegisters(fn *ir.Function) error {
 	// Initialize one allocator per kind.
 	as := map[reg.Kind]*Allocator{}
 	for _, i := range fn.Instructions() {
-		for _, r := range i.Registers() {
+		// Include implicit registers: they take part in interferences below.
+		rs := i.Registers()
+		rs = append(rs, i.InputRegisters()...)
+		rs = append(rs, i.OutputRegisters()...)
+		for _, r := range rs {
 			k := r.Kind()
 			if _, found := as[k]; !found {
 				a, err := NewAllocatorForKind(k)
